@@ -146,11 +146,11 @@ PROPS.update({
         theorems=["writer_layout", "writer_data_offset", "writer_error_iff", "writer_dict_parses", "grammar_accepts_numpy", "bar_is_little", "descr_accepted_iff",
                   "header_len_width", "bad_version_rejected", "fortran_rejected", "readValues_spec", "decode_big_eq", "decode_f8", "decode_f4", "signedOf_spec",
                   "decode_unsigned_exact", "decode_signed_exact", "decode_unsigned_nearest", "decoder_table"],
-        nontrivial=r"^(npyrt-|numpy-|npyread-)",
+        nontrivial=r"^(npyrt-|numpy-|npyread-|rdnpy-)",
         rule="writer: 69 shapes whose header dict length covers every residue modulo 64 (each residue is a tag in the histogram), zero-length axes, 40 (thorough 400) random shapes — bytes compared with writeNpy, "
              "and a third (thorough all) loaded by real numpy (python3-vt) and compared bit for bit; reader: 186 (thorough ~600) files written by numpy.lib.format.write_array for dtype(10) x byte order(<,>) x version(1.0,2.0,3.0) "
              "with boundary values (min, max, +-1, 2^53+-1.., 2^64-1025..) where model, implementation and numpy's astype('<f8') must agree bit for bit, plus numpy files that must be rejected (Fortran order, bool, complex, f2, 0-d, str, structured); "
-             "synthesized headers: type(10) x byte-order char(<,>,|) x version(1,2,3) x spelling (quotes, spacing, key order, trailing commas; a third outside the accepted family), unsupported descr strings, bad versions, count mismatches, malformed tuples; "
+             "synthesized headers (each accepted one also read through a BufRead whose chunks are not aligned to the item size): type(10) x byte-order char(<,>,|) x version(1,2,3) x spelling (quotes, spacing, key order, trailing commas; a third outside the accepted family), unsupported descr strings, bad versions, count mismatches, malformed tuples; "
              "non-trivial = every distinct request",
         exhaustive=True, assumptions=IO_ASSUME + ["numpy 2.x from the tooling venv is the oracle the property names; if python3-vt is missing those cases are skipped and the evidence shows no numpy-* tags"],
     ),
